@@ -82,4 +82,25 @@ Proof.
   exact (change_settles_effects f x c w Hq Hpp Hsa Hsp Hc Hb Hco Hacc).
 Qed.
 
+
+(* ... while an entry that is only preloaded (about-to-finish served, its stream not started yet)
+   stays in the order: it is taken out when it starts, not when it is announced to the audio
+   layer - so an abandoned preload is still visited in this pass *)
+Theorem preload_keeps_order f x c len w :
+  settled_on w c -> pstate w = Playing -> a_atf_done w = false ->
+  len_of w (trk c) = Some len -> accepts w x -> announces_eot shuf w c x ->
+  let w' := run_world shuf (S f) w [AboutToFinish] in
+  shuffled w' = shuffled w /\ pending w' = Some x /\ current w' = Some c /\ World.tl w' = World.tl w.
+Proof.
+  intros [Hq Hp Hpp Hsa Hsp Hpf Hc Hb Ha] Hst Hd Hlen Hacc Hann. rewrite Hst in Ha. destruct Ha as [Hu Has].
+  cbv zeta. unfold run_world. cbn [fold_left].
+  assert (Hns : pstate w <> Stopped) by (rewrite Hst; discriminate).
+  pose proof (about_to_finish_run shuf f x c len w Hns Hc Hlen Hu Has Hd Hacc Hann) as E1.
+  set (w1 := fx_about_to_finish x len w) in *.
+  assert (G1 : get_time_position w1 = (Ok (a_pos w1), fx_gtp w1)).
+  { apply (gtp_run w1 c); [exact Hpp|exact Hc|exact Hb]. }
+  rewrite (stepw_eq shuf (S f) AboutToFinish w RNone w1 _ _ (run_op_bind_none _ w tt w1 E1) G1).
+  repeat split; try reflexivity. exact Hc.
+Qed.
+
 End P.
